@@ -80,6 +80,15 @@ def gen_cases(rng, tier):
         ids = trees.Ids()
         cases.append({'nodes': [trees._relabel(n, ids) for n in nodes], 'src': 'group/' + ctx})
   cases += trees.corpus()
+  # fixed defect #1: the first phase excluded by run_if under stop_on_first_failure made the executor crash and the
+  # teardown of the entered group was lost
+  for opts, sof in (({}, True), ({'rmf': True}, False)):
+    ids = trees.Ids()
+    excluded = {'t': 'P', 'id': 0, 'opts': dict(opts), 'beh': [{'raw': 'cont'}], 'runif': [False]}
+    cases.append({'nodes': [trees._relabel(n, ids) for n in [G([], [excluded, ok], [ok, ok]), ok]], 'sof': sof,
+                  'src': 'corpus'})
+    ids = trees.Ids()
+    cases.append({'nodes': [trees._relabel(n, ids) for n in [G([excluded], [ok], [ok]), ok]], 'sof': sof, 'src': 'corpus'})
   for i in range(1200 if tier == 'quick' else 15000):
     r = rng.derive('f%d' % i)
     ids = trees.Ids()
